@@ -125,7 +125,10 @@ def run(ctx) -> None:
 
         # R4: event contents
         for d in disp:
+            from .common import defining_call
+
             ev = d.args[0] if d.args else None
+            ev = defining_call(a, f, ev, d) or ev
             if not (isinstance(ev, ast.Call) and a.callee(f, ev).kind == "class" and a.callee(f, ev).cls is an.event_class):
                 rep.unrecognised("C18.R4", f, d, "the dispatched event is not a direct ResourceEvent construction")
                 continue
